@@ -22,6 +22,7 @@ import copy
 import json
 import os
 import random
+import shutil
 import sys
 from concurrent.futures import ThreadPoolExecutor
 
@@ -201,6 +202,14 @@ def mutate(rec, rng):
 
 def run():
     chk = Check('C16', 'model_checking')
+    try:
+        body(chk)
+    finally:
+        if chk._env is not None:
+            shutil.rmtree(chk.scratch, ignore_errors=True)
+
+
+def body(chk):
     rng = random.Random(chk.seed + 16)
     quick = chk.tier == 'quick'
     sc = chk.scratch
@@ -283,8 +292,8 @@ def run():
     mutants = []
     mrng = random.Random(chk.seed + 99)
     cands = [r for r in rec_by_id.values() if 'calls' in r and
-             r['code']['Lin'] == r['g']['Lin'] and
-             r['code']['Lout'] == r['g']['Lout']]
+             r['code']['LinM'] == r['g']['Lin'] * r['mpf'] and
+             r['code']['LoutM'] == r['g']['Lout'] * r['mpf']]
     mrng.shuffle(cands)
     seen_kinds = {}
     for r in cands:
